@@ -29,6 +29,23 @@ def flat (k : Key) : Bool := (parse k).comps.length == 1
 def pngSig : Bytes := [137, 80, 78, 71, 13, 10, 26, 10]
 def isPng (b : Bytes) : Bool := pngSig.isPrefixOf b
 
+/-! ## load -/
+
+/-- "on stores loaded lazily from arbitrary data/ and images/ trees … contents obtained lazily equal
+    the bytes that were on disk": nothing that is on disk may be missing from a loaded store, nothing
+    else may be in it.  `tree`: every node of the store directory (name path, `'f' | 'd' | 'l'`).
+    A data tree is listable when it holds no symbolic link; an images tree when its top level holds
+    plain files only.  Then the keys are exactly: every plain file (data), every top-level plain
+    file (images), named by its `/`-joined relative path. -/
+def loadFailures (isImage : Bool) (tree : List (List (List Char) × Char)) (ks : List Key) : List String :=
+  let top := tree.filter fun n => n.1.length == 1
+  let listable := if isImage then top.all (fun n => n.2 == 'f') else tree.all (fun n => n.2 != 'l')
+  if !listable then ["unlistable-tree-loaded"] else
+  let files := (if isImage then top else tree).filter fun n => n.2 == 'f'
+  let expected : List Key := files.map fun n => ("/".intercalate (n.1.map String.ofList)).toList
+  (if expected.all (fun k => ks.contains k) then [] else ["file-on-disk-missing-from-loaded-store"]) ++
+  (if ks.all (fun k => expected.contains k) then [] else ["loaded-store-has-key-without-file"])
+
 /-! ## save -/
 
 abbrev Loc := List (List Char)
